@@ -20,6 +20,7 @@ offset and length of what the cipher engine was handed, tag length, wire length]
 import hmac as pyhmac
 import hashlib
 import os
+import re
 import struct
 import types
 import zlib
@@ -436,14 +437,37 @@ def toy_input(cfg, raw, flen):
 # --------------------------------------------------------------------------- table drive
 
 
-def make_transport():
-    from paramiko.transport import Transport
+def rec_packetizer_class():
     from paramiko.packet import Packetizer
+    import threading
 
     class RecPacketizer(Packetizer):
         rec_engine = None
         rec_args = None
         rec_comp = None
+        records = None          # end-to-end drive: list of (payload, framed payload, wire, engine calls, args)
+        tee = None
+        rec_lock = threading.RLock()
+
+        def send_message(self, data):
+            if self.records is None:
+                return Packetizer.send_message(self, data)
+            with self.rec_lock:
+                raw = data.asbytes()
+                if self.rec_engine is not None:
+                    self.rec_engine.calls = []
+                if self.rec_comp is not None:
+                    self.rec_comp.last = None
+                eng_before, comp_before, args_before = self.rec_engine, self.rec_comp, self.rec_args
+                start = len(self.tee.sent)
+                try:
+                    return Packetizer.send_message(self, data)
+                finally:
+                    self.records.append(dict(
+                        raw=raw, wire=bytes(self.tee.sent[start:]),
+                        framed=(comp_before.last if comp_before is not None else raw),
+                        calls=list(eng_before.calls) if eng_before is not None else [],
+                        keyed=eng_before is not None, args=args_before))
 
         def set_outbound_compressor(self, compressor):
             self.rec_comp = RecComp(compressor)
@@ -460,9 +484,143 @@ def make_transport():
             self.rec_args = {k: args.get(k) for k in ("block_size", "mac_size", "sdctr", "etm", "aead")}
             return Packetizer.set_outbound_cipher(self, **args)
 
+    return RecPacketizer
+
+
+def make_transport():
+    from paramiko.transport import Transport
     sink = Sink()
-    t = Transport(sink, packetizer_class=RecPacketizer)
+    t = Transport(sink, packetizer_class=rec_packetizer_class())
     return t, sink
+
+
+class TeeSocket:
+    """Passes everything to the real (loop) socket and keeps a copy of what was sent."""
+
+    def __init__(self, sock):
+        self.sock = sock
+        self.sent = bytearray()
+
+    def send(self, data):
+        n = self.sock.send(data)
+        self.sent += bytes(data[:n])
+        return n
+
+    def __getattr__(self, name):
+        return getattr(self.sock, name)
+
+
+def e2e_session(ctx, ci, cname, cinfo, mi, mname, minfo, sizes, compression, results):
+    """END TO END: two real Transports negotiate (SecurityOptions restricted to one cipher / MAC / compression)
+    over an in-memory socket pair; the client's outgoing packets (KEXINIT .. NEWKEYS in the clear, then
+    SERVICE/IGNORE traffic under the negotiated suite) are received independently and checked."""
+    import paramiko
+    from paramiko.transport import Transport
+    from _loop import LoopSocket
+    case0 = {"drive": "e2e", "cipher": cname, "mac": mname, "compression": compression}
+    a, b = LoopSocket(), LoopSocket()
+    a.link(b)
+    tee = TeeSocket(a)
+
+    class RecTransport(Transport):
+        c03_kex = None
+
+        def _set_K_H(self, k, h):           # K is discarded after NEWKEYS: keep what the receiver needs
+            self.c03_kex = (k, h, getattr(self.kex_engine, "hash_algo", hashlib.sha1))
+            return Transport._set_K_H(self, k, h)
+
+    tc = RecTransport(tee, packetizer_class=rec_packetizer_class())
+    ts = Transport(b)
+    tc.packetizer.tee = tee
+    tc.packetizer.records = []
+    try:
+        for t in (tc, ts):
+            o = t.get_security_options()
+            o.ciphers = (cname,)
+            o.digests = (mname,)
+            o.compression = (compression,)
+        ts.add_server_key(e2e_host_key())
+        import threading
+        ts.start_server(event=threading.Event(), server=paramiko.ServerInterface())
+        try:
+            tc.start_client(timeout=15)
+        except Exception as e:
+            ctx.fail("e2e-handshake", "two paramiko Transports restricted to one suite cannot complete the "
+                     "handshake (%s)" % type(e).__name__, case=case0, observed=repr(e)[:300])
+            return
+        if (tc.local_cipher, tc.local_mac, tc.local_compression) != (cname, mname, compression):
+            ctx.fail("e2e-negotiated", "negotiation did not select the only offered algorithms", case=case0,
+                     observed=[tc.local_cipher, tc.local_mac, tc.local_compression])
+            return
+        for n in sizes:
+            tc.send_ignore(n)
+        recs = list(tc.packetizer.records)
+        rx = None
+        zdec = None
+        for seq, r in enumerate(recs):
+            raw, wire, framed = r["raw"], r["wire"], r["framed"]
+            case = dict(case0, seq=seq, msg_type=raw[0] if raw else None, payload_len=len(raw))
+            if not r["keyed"]:
+                exp = dict(bs=8, excl=False, enc=False, tag=0)
+                summ = parse_and_check(ctx, case, len(raw), raw, wire, wire, [], exp)
+                inp = coq((-1, 0, (len(raw), len(raw))))
+            else:
+                if rx is None:
+                    K, H, halgo = tc.c03_kex
+                    rx = Receiver(None, cname, cinfo, mname, minfo, False, kd=rfc_key(K, H, tc.session_id, halgo))
+                    zdec = zlib.decompressobj() if compression != "none" else None
+                    cs, ms = cipher_spec(cname, cinfo), mac_spec(mname, minfo)
+                    want = {"block_size": cs["bs"], "mac_size": cs.get("tag", 16) if cs["aead"] else ms["size"],
+                            "etm": (not cs["aead"]) and ms["etm"], "aead": cs["aead"]}
+                    got = {k: (r["args"] or {}).get(k) for k in want}
+                    if got != want:
+                        ctx.fail("activate-args", "after a real negotiation the packetizer is configured differently "
+                                 "from the negotiated algorithms", case=case, expected=want, observed=got)
+                if framed is None:
+                    ctx.fail("compression-skipped", "a compressor is installed but send_message did not call it",
+                             case=case)
+                    framed = raw
+                try:
+                    plain = rx.decrypt(wire)
+                except Exception as e:
+                    ctx.fail("undecodable", "an RFC-conforming receiver cannot decrypt the packet (%s)"
+                             % type(e).__name__, case=dict(case, wire=wire))
+                    break
+                if not rx.aead and len(plain) != len(wire) - rx.tag_len:
+                    ctx.fail("alignment", "encrypted portion is not a whole number of cipher blocks",
+                             case=dict(case, wire=wire))
+                    break
+                summ = parse_and_check(ctx, case, len(framed), framed, wire, plain, r["calls"], rx.exp())
+                if summ is not None and zdec is not None:
+                    check_decompress(ctx, zdec, plain, len(framed), raw, case)
+                if summ is not None:
+                    ok, want, got = rx.mac_ok(seq, wire, plain)
+                    if not ok:
+                        ctx.fail("mac-value", "appended MAC is not the negotiated HMAC", case=dict(case, wire=wire),
+                                 expected=want, observed=got)
+                inp = coq((ci, mi, (len(raw), len(framed))))
+            ctx.count(("e2e", cname, mname, compression, seq, len(raw)), nontrivial=True,
+                      kind="e2e-keyed" if r["keyed"] else "e2e-clear")
+            if summ is not None:
+                results.append((inp, summ, case))
+        if rx is None:
+            ctx.fail("e2e-no-keyed-packet", "no packet was sent under the negotiated keys", case=case0)
+    finally:
+        for t in (tc, ts):
+            try:
+                t.close()
+            except Exception:
+                pass
+
+
+_E2E_KEY = []
+
+
+def e2e_host_key():
+    if not _E2E_KEY:
+        import paramiko
+        _E2E_KEY.append(paramiko.ECDSAKey.generate(bits=256))
+    return _E2E_KEY[0]
 
 
 def inc_iv(iv):
@@ -470,24 +628,137 @@ def inc_iv(iv):
     return iv[:4] + ((int.from_bytes(iv[4:], "big") + 1) & (2 ** 64 - 1)).to_bytes(8, "big")
 
 
+# ---- what the algorithm NAMES mean, independently of Transport._cipher_info / _mac_info ----------------------
+# RFC 4253 section 6.4 (hmac-sha1 20, hmac-sha1-96 12, hmac-md5 16, hmac-md5-96 12), RFC 6668 section 2
+# (hmac-sha2-256 32, hmac-sha2-512 64), OpenSSH PROTOCOL 1.1 (-etm@openssh.com: same MAC, EtM framing);
+# RFC 4253 section 6.3 / RFC 4344 (3des-cbc: 8-byte blocks, 24-byte key; aes{128,192,256}-{cbc,ctr}: 16-byte
+# blocks), RFC 5647 / OpenSSH PROTOCOL 1.6 (aes{128,256}-gcm@openssh.com: 16-byte blocks, 12-byte IV, 16-byte tag).
+
+_HASHES = {"sha1": hashlib.sha1, "md5": hashlib.md5, "sha2-256": hashlib.sha256, "sha2-512": hashlib.sha512}
+
+
+def rfc_mac(name):
+    m = re.fullmatch(r"hmac-(sha1|md5|sha2-256|sha2-512)(-96)?(-etm@openssh\.com)?", name)
+    if not m:
+        return None
+    h = _HASHES[m.group(1)]
+    return {"hash": h, "digest": h().digest_size, "size": 12 if m.group(2) else h().digest_size,
+            "etm": bool(m.group(3))}
+
+
+def rfc_cipher(name):
+    from cryptography.hazmat.primitives.ciphers import algorithms, modes
+    try:
+        from cryptography.hazmat.decrepit.ciphers.algorithms import TripleDES
+    except ImportError:
+        TripleDES = algorithms.TripleDES
+    m = re.fullmatch(r"aes(128|192|256)-(ctr|cbc)", name)
+    if m:
+        return {"bs": 16, "key": int(m.group(1)) // 8, "iv": 16, "aead": False, "alg": algorithms.AES,
+                "mode": modes.CTR if m.group(2) == "ctr" else modes.CBC}
+    if name == "3des-cbc":
+        return {"bs": 8, "key": 24, "iv": 8, "aead": False, "alg": TripleDES, "mode": modes.CBC}
+    m = re.fullmatch(r"aes(128|256)-gcm@openssh\.com", name)
+    if m:
+        from cryptography.hazmat.primitives.ciphers.aead import AESGCM
+        return {"bs": 16, "key": int(m.group(1)) // 8, "iv": 12, "aead": True, "alg": AESGCM, "mode": None,
+                "tag": 16}
+    return None
+
+
+def cipher_spec(name, info):
+    """Reference meaning of a cipher name; for a name without a reference the table entry itself."""
+    sp = rfc_cipher(name)
+    if sp is None:
+        sp = {"bs": info["block-size"], "key": info["key-size"], "iv": info.get("iv-size", info["block-size"]),
+              "aead": bool(info.get("is_aead", False)), "alg": info["class"], "mode": info.get("mode"), "tag": 16,
+              "unreferenced": True}
+    return sp
+
+
+def mac_spec(name, info):
+    sp = rfc_mac(name)
+    if sp is None:
+        sp = {"hash": info["class"], "digest": info["class"]().digest_size, "size": info["size"],
+              "etm": ETM_MARKER in name, "unreferenced": True}
+    return sp
+
+
+def check_table_entries(ctx, ciphers, macs):
+    """Every entry of the live tables against what its NAME means (the negotiated algorithm)."""
+    for name, info in ciphers:
+        sp = rfc_cipher(name)
+        ctx.count(("table-entry", name), kind="table-entry")
+        if sp is None:
+            ctx.notes.append("no reference definition for cipher %s: its table entry is taken as given" % name)
+            continue
+        got = {"block-size": info.get("block-size"), "key-size": info.get("key-size"),
+               "iv-size": info.get("iv-size", info.get("block-size")), "is_aead": bool(info.get("is_aead", False)),
+               "class": getattr(info.get("class"), "__name__", None),
+               "mode": getattr(info.get("mode"), "__name__", None)}
+        want = {"block-size": sp["bs"], "key-size": sp["key"], "iv-size": sp["iv"], "is_aead": sp["aead"],
+                "class": sp["alg"].__name__, "mode": getattr(sp["mode"], "__name__", None)}
+        if got != want:
+            ctx.fail("cipher-table-entry", "Transport._cipher_info[%r] does not describe the algorithm of that name"
+                     % name, case={"drive": "entry", "cipher": name}, expected=want, observed=got)
+    for name, info in macs:
+        sp = rfc_mac(name)
+        ctx.count(("table-entry", name), kind="table-entry")
+        if sp is None:
+            ctx.notes.append("no reference definition for MAC %s: its table entry is taken as given" % name)
+            continue
+        cls = info.get("class")
+        try:
+            probe = cls(b"abc").digest() == sp["hash"](b"abc").digest()
+        except Exception:
+            probe = False
+        got = {"size": info.get("size"), "digest": probe}
+        want = {"size": sp["size"], "digest": True}
+        if got != want:
+            ctx.fail("mac-table-entry", "Transport._mac_info[%r] does not describe the algorithm of that name "
+                     "(MAC length in bytes / digest function)" % name, case={"drive": "entry", "mac": name},
+                     expected=want, observed=got)
+
+
+def rfc_mpint(n):
+    if n == 0:
+        return struct.pack(">I", 0)
+    k = n.bit_length() // 8 + 1
+    body = n.to_bytes(k, "big", signed=True)
+    return struct.pack(">I", len(body)) + body
+
+
+def rfc_key(K, H, sid, hash_algo):
+    """RFC 4253 section 7.2 key derivation: HASH(K || H || X || session_id), extended with HASH(K || H || K1 ...)."""
+    def kd(letter, nbytes):
+        out = hash_algo(rfc_mpint(K) + H + letter.encode() + sid).digest()
+        while len(out) < nbytes:
+            out += hash_algo(rfc_mpint(K) + H + out).digest()
+        return out[:nbytes]
+    return kd
+
+
 class Receiver:
     """Independent RFC-conforming receiver for one direction: keys by Transport._compute_key, engines straight
     from the cryptography package, MAC by hmac."""
 
-    def __init__(self, t, cinfo, mname, minfo, server_mode):
+    def __init__(self, t, cname, cinfo, mname, minfo, server_mode, kd=None):
         from cryptography.hazmat.primitives.ciphers import Cipher
-        self.bs = cinfo["block-size"]
-        self.aead = bool(cinfo.get("is_aead", False))
-        self.etm = (not self.aead) and ETM_MARKER in mname
-        self.minfo = minfo
-        self.tag_len = 16 if self.aead else minfo["size"]
-        self.iv = t._compute_key("B" if server_mode else "A", cinfo.get("iv-size", self.bs))
-        key = t._compute_key("D" if server_mode else "C", cinfo["key-size"])
-        self.mac_key = t._compute_key("F" if server_mode else "E", minfo["class"]().digest_size)
+        if kd is not None:
+            t = types.SimpleNamespace(_compute_key=kd)
+        cs, ms = cipher_spec(cname, cinfo), mac_spec(mname, minfo)
+        self.bs = cs["bs"]
+        self.aead = cs["aead"]
+        self.etm = (not self.aead) and ms["etm"]
+        self.ms = ms
+        self.tag_len = cs.get("tag", 16) if self.aead else ms["size"]
+        self.iv = t._compute_key("B" if server_mode else "A", cs["iv"])
+        key = t._compute_key("D" if server_mode else "C", cs["key"])
+        self.mac_key = t._compute_key("F" if server_mode else "E", ms["digest"])
         if self.aead:
-            self.dec = cinfo["class"](key)
+            self.dec = cs["alg"](key)
         else:
-            self.dec = Cipher(cinfo["class"](key), cinfo["mode"](self.iv)).decryptor()
+            self.dec = Cipher(cs["alg"](key), cs["mode"](self.iv)).decryptor()
 
     def exp(self):
         return dict(bs=self.bs, excl=(self.aead or self.etm), enc=True, tag=self.tag_len)
@@ -506,8 +777,7 @@ class Receiver:
         if self.aead:
             return True, None, None
         body = wire[:len(wire) - self.tag_len] if self.etm else plain
-        want = pyhmac.new(self.mac_key, struct.pack(">I", seq) + body,
-                          self.minfo["class"]).digest()[:self.minfo["size"]]
+        want = pyhmac.new(self.mac_key, struct.pack(">I", seq) + body, self.ms["hash"]).digest()[:self.ms["size"]]
         got = wire[len(wire) - self.tag_len:]
         return got == want, want, got
 
@@ -603,12 +873,13 @@ def table_suite(ctx, ci, cname, cinfo, mi, mname, minfo, lens, server_mode, resu
         steps.append((ci2, ciphers[ci2][0], ciphers[ci2][1], mi2, macs[mi2][0], macs[mi2][1],
                       rekey_lens if rekey_lens is not None else lens, "after re-key"))
     for (sci, scname, scinfo, smi, smname, sminfo, slens, phase) in steps:
-        bs = scinfo["block-size"]
-        aead = bool(scinfo.get("is_aead", False))
-        etm = (not aead) and ETM_MARKER in smname
+        cs, ms = cipher_spec(scname, scinfo), mac_spec(smname, sminfo)      # what the NAMES mean
+        bs = cs["bs"]
+        aead = cs["aead"]
+        etm = (not aead) and ms["etm"]
         case0 = {"drive": "table", "cipher": scname, "mac": smname, "phase": phase, "session": session,
-                 "framing_class": [bs, aead, scname.endswith("-ctr"), etm, 16 if aead else sminfo["size"],
-                                   0 if aead else sminfo["class"]().digest_size, compression]}
+                 "framing_class": [bs, aead, scname.endswith("-ctr"), etm, 16 if aead else ms["size"],
+                                   0 if aead else ms["digest"], compression]}
         t.local_cipher = scname
         t.local_mac = smname
         if remote is not None:
@@ -662,12 +933,13 @@ def table_suite(ctx, ci, cname, cinfo, mi, mname, minfo, lens, server_mode, resu
             # _activate_outbound installs a fresh compressor at every key switch
             zdec = zlib.decompressobj()
         # what _activate_outbound configured, against the algorithms negotiated for THIS direction
-        want_args = {"block_size": bs, "mac_size": 16 if aead else sminfo["size"], "etm": etm, "aead": aead}
+        want_args = {"block_size": bs, "mac_size": cs.get("tag", 16) if aead else ms["size"], "etm": etm,
+                     "aead": aead}
         got_args = {k: pk.rec_args.get(k) for k in want_args}
         if got_args != want_args:
             ctx.fail("activate-args", "_activate_outbound configured the packetizer differently from the algorithms "
                      "negotiated for the outbound direction", case=case0, expected=want_args, observed=got_args)
-        rx = Receiver(t, scinfo, smname, sminfo, server_mode)
+        rx = Receiver(t, scname, scinfo, smname, sminfo, server_mode)
         for raw_n in slens:
             st = table_packet(ctx, pk, sink, rx, raw_n, sci * 11 + smi, seq, case0, sci, smi, zdec, results)
             if st == "lost":
@@ -847,6 +1119,7 @@ def run(ctx):
     ciphers, macs = live_tables()
     table_bs = sorted({info["block-size"] for _, info in ciphers})
 
+    check_table_entries(ctx, ciphers, macs)
     with pinned_urandom():
         builds = []
         toy = run_toy_drive(ctx, table_bs, builds=builds)
@@ -862,9 +1135,20 @@ def run(ctx):
                 table_suite(ctx, ci, cname, cinfo, mi, mname, minfo, base + big, results=table,
                             rekey_lens=(list(range(0, 4 * bs2 + 9)) if ctx.thorough else list(range(0, bs2 + 9))),
                             **plan)
+        # END TO END through the public entry points: every MAC (and a seed-rotated cipher) each quick run, every
+        # pair in the thorough tier
+        e2e = []
+        pairs = ([(ci, mi) for ci in range(len(ciphers)) for mi in range(len(macs))] if ctx.thorough else
+                 [((3 * mi + ctx.seed) % len(ciphers), mi) for mi in range(len(macs))]
+                 + [(ci, (ci + ctx.seed) % len(macs)) for ci in range(len(ciphers))])
+        for k, (ci, mi) in enumerate(dict.fromkeys(pairs)):
+            bs = ciphers[ci][1]["block-size"]
+            sizes = list(range(0, bs + 8)) + [ctx.rng.randrange(100, 3000)]
+            e2e_session(ctx, ci, ciphers[ci][0], ciphers[ci][1], mi, macs[mi][0], macs[mi][1], sizes,
+                        "zlib" if (k + ctx.seed) % 4 == 0 else "none", e2e)
     ctx.exhaustive = True
-    ctx.log("toy drive: %d packets; table drive: %d packets over %d suites" % (len(toy), len(table),
-                                                                             len(ciphers) * len(macs)))
+    ctx.log("toy drive: %d packets; table drive: %d packets over %d suites; end-to-end: %d packets" % (
+        len(toy), len(table), len(ciphers) * len(macs), len(e2e)))
     compare(ctx, "run_build", "((bool * bool * bool * bool) * Z * Z)", builds, "_build_packet")
     compare(ctx, "run_toy", "((bool * bool * bool * bool) * (Z * Z * Z * Z) * (Z * Z))", toy, "toy drive")
     if not ctx.thorough:
@@ -887,8 +1171,8 @@ def run(ctx):
         ctx.notes.append("quick tier: %d of %d table-drive packets compared with the model (all %d checked by "
                          "the RFC oracle)" % (len(sel), len(table), len(table)))
         table = sel
-    compare(ctx, "run_table", "(Z * Z * (Z * Z))", table, "table drive")
-    for r in (toy[:2] + table[40:42] + table[-1:]):
+    compare(ctx, "run_table", "(Z * Z * (Z * Z))", table + e2e, "table / end-to-end drive")
+    for r in (e2e[-1:] + toy[:2] + table[40:42] + table[-1:]):
         ctx.sample({"case": r[2], "impl_summary": r[1]})
 
 
@@ -896,7 +1180,9 @@ def replay(ctx, rep):
     case = rep["case"]
     ciphers, macs = live_tables()
     with pinned_urandom():
-        if case.get("drive") == "build":
+        if case.get("drive") == "entry":
+            check_table_entries(ctx, ciphers, macs)
+        elif case.get("drive") == "build":
             res = []
             run_toy_drive(ctx, sorted({info["block-size"] for _, info in ciphers}),
                           only={"cfg": case["cfg"], "payload_len": case["payload_len"]}, builds=res)
